@@ -21,6 +21,11 @@
      AddOccupied(a, l)     Core.add to a filled location is refused (ValueError "already filled") -- nothing changes
      Remove(a, d)          Core.removeAssembly(a, discharge=d): to the SpentFuelPool iff d and trackAssems,
                            otherwise purged (Core._removeListFromAuxiliaries)
+     Repeat(load, loops)   FuelHandler.repeatShufflePattern(file): readMoves, processMoveList/trackChain, doRepeatShuffle
+                           on a recorded outage (one load chain fed from the pool by name, in-core loops)
+     Locate                Core.locateAllAssemblies()  (lastLocationLabel; clears the "database" label of a loaded case)
+     Ask                   the look-ups by location made between moves (getLocationContents without a table,
+                           getAssemblyWithStringLocation, getBlocksByIndices): pure, answers = Queries
 
    Abstract state (what the code keeps, in the code's own redundancy)
      children     Core._children (ordered)                loc[a]    a.spatialLocator as location index, 0 = not in core
@@ -35,7 +40,9 @@
      blkTab       Core.blocksByName as a set of <<number, axial index, block>>  (block name = Bnnnn-iii)
      blocks[a]    the assembly's block list, bottom to top;  bname[b] = <<number, axial index>> in b's name
      content[b]   opaque token for height, dimensions and number densities of block b
-     moves[a]     a.p.numMoves (Assembly.moveTo)
+     moves[a]     a.p.numMoves (Assembly.moveTo; not counted while the assembly carries the database label)
+     label[a]     a.lastLocationLabel; the initial state is either a freshly built core (all "LoadQueue") or a core
+                  written to and loaded from a real database (every restored assembly "database")
      track        the trackAssems setting;  sflags = the stationaryBlockFlags setting (set of block type letters)
 
    Interpretation choices (each is where the reference states what the PROPERTY requires; the replay reports the
@@ -76,6 +83,9 @@ CONSTANTS NL,          \* core locations 1..NL
           TrackSet,    \* subset of BOOLEAN
           ReAdd,       \* purged assemblies may be added again
           MaxCascade,  \* longest cascade list
+          DbSet,       \* subset of BOOLEAN: is the initial state a reactor loaded from a database?
+          MaxLoop,     \* longest in-core loop of a repeated shuffle
+          MaxChain,    \* longest load chain of a repeated shuffle
           MaxLevel
 
 Asm     == 1..(NA0 + NP0 + NF)
@@ -92,9 +102,9 @@ RealBlk == {b \in Blk : Pos0(b) <= Len(Layout[Owner0(b)])}
 TypeOf(b) == Layout[Owner0(b)][Pos0(b)]
 
 VARIABLES children, loc, byLoc, sfp, slot, fresh, purged, charged, num, nextNum, asmTab, blkTab, blocks, bname,
-          content, moves, track, sflags, err, act
+          content, moves, label, track, sflags, err, act
 vars == <<children, loc, byLoc, sfp, slot, fresh, purged, charged, num, nextNum, asmTab, blkTab, blocks, bname,
-          content, moves, track, sflags>>
+          content, moves, label, track, sflags>>
 allvars == <<vars, err, act>>
 
 (* ---------- helpers ---------- *)
@@ -116,12 +126,18 @@ ExchangeIn(bl, x, y) ==
     [bl EXCEPT ![x] = [k \in 1..Len(bl[x]) |-> IF k \in S THEN bl[y][k] ELSE bl[x][k]],
                ![y] = [k \in 1..Len(bl[y]) |-> IF k \in S THEN bl[x][k] ELSE bl[y][k]]]
 
+\* a.lastLocationLabel:  0 "LoadQueue" (Assembly.__init__),  LabelDb "database" (set by Database.load on every
+\* assembly it restores),  LabelSfp "SFP",  l > 0 the core location  (the last three written by locateAllAssemblies)
+LabelDb == -1
+LabelSfp == -2
+\* Assembly.moveTo counts a move unless the assembly still carries the database label
+Counted(mv, a) == IF label[a] = LabelDb THEN mv ELSE [mv EXCEPT ![a] = @ + 1]
 \* one swapAssemblies on the part of the state it touches
 Cur == [bl |-> blocks, lc |-> loc, tb |-> byLoc, mv |-> moves]
 SwapIn(s, x, y) == [bl |-> ExchangeIn(s.bl, x, y),
                     lc |-> [s.lc EXCEPT ![x] = s.lc[y], ![y] = s.lc[x]],
                     tb |-> [s.tb EXCEPT ![s.lc[y]] = x, ![s.lc[x]] = y],
-                    mv |-> [s.mv EXCEPT ![x] = @ + 1, ![y] = @ + 1]]
+                    mv |-> Counted(Counted(s.mv, x), y)]
 SetShuffle(s) == blocks' = s.bl /\ loc' = s.lc /\ byLoc' = s.tb /\ moves' = s.mv
 \* 0 stands for a None entry (findAssembly found nothing): swapCascade skips a None level and goes on with the next
 \* one ("continue"); a None in front makes every swapAssemblies(None, x) a logged no-op.
@@ -151,7 +167,7 @@ Outside == fresh \cup (IF ReAdd THEN purged ELSE {})
 Swap(x, y) ==
     /\ Go /\ x \in InCore /\ y \in InCore /\ x < y /\ CompatIn(blocks, x, y)   \* (y, x) is Cascade(<<y, x>>)
     /\ SetShuffle(SwapIn(Cur, x, y))
-    /\ UNCHANGED <<children, sfp, slot, fresh, purged, charged, num, nextNum, asmTab, blkTab, bname, content, track, sflags>>
+    /\ UNCHANGED <<children, sfp, slot, fresh, purged, charged, num, nextNum, asmTab, blkTab, bname, content, label, track, sflags>>
     /\ Ok([n |-> "Swap", x |-> x, y |-> y])
 
 SwapMismatch(x, y) ==
@@ -165,7 +181,7 @@ Cascade(l) ==
        /\ SetShuffle(r.s)
        /\ err' = IF r.ok THEN "" ELSE "refused"
     /\ act' = [n |-> "Cascade", l |-> l]
-    /\ UNCHANGED <<children, sfp, slot, fresh, purged, charged, num, nextNum, asmTab, blkTab, bname, content, track, sflags>>
+    /\ UNCHANGED <<children, sfp, slot, fresh, purged, charged, num, nextNum, asmTab, blkTab, bname, content, label, track, sflags>>
 
 Add(a, l, how) ==
     /\ Go /\ a \in Outside /\ l \in Loc /\ byLoc[l] = 0
@@ -176,10 +192,10 @@ Add(a, l, how) ==
        /\ bname' = nb
        /\ blkTab' = (blkTab \ BlkEntriesOf(blkTab, Rng(blocks[a]))) \cup RegBlocks(nb, Rng(blocks[a]))
     /\ asmTab' = (asmTab \ AsmEntriesOf(asmTab, a)) \cup {<<NewNum(a), a>>}
-    /\ moves' = [moves EXCEPT ![a] = @ + 1]
+    /\ moves' = Counted(moves, a)
     /\ fresh' = fresh \ {a} /\ purged' = purged \ {a}
     /\ charged' = IF a \in fresh THEN charged \cup {a} ELSE charged
-    /\ UNCHANGED <<sfp, slot, blocks, content, track, sflags>>
+    /\ UNCHANGED <<sfp, slot, blocks, content, label, track, sflags>>
     /\ Ok([n |-> "Add", a |-> a, l |-> l, how |-> how])
 
 AddOccupied(a, l) ==
@@ -199,13 +215,14 @@ RemoveAsm(a, d) ==
             /\ asmTab' = asmTab \ AsmEntriesOf(asmTab, a)
             /\ blkTab' = blkTab \ BlkEntriesOf(blkTab, Rng(blocks[a]))
             /\ UNCHANGED <<sfp, slot>>
-    /\ UNCHANGED <<fresh, charged, num, nextNum, blocks, bname, content, moves, track, sflags>>
+    /\ UNCHANGED <<fresh, charged, num, nextNum, blocks, bname, content, moves, label, track, sflags>>
     /\ Ok([n |-> "Remove", a |-> a, d |-> d])
 
-DischargeSwap(i, o) ==
-    /\ Go /\ o \in InCore /\ i \in Outside \cup Pool /\ CompatIn(blocks, i, o)
-    /\ LET bl    == ExchangeIn(blocks, i, o)
-           l     == loc[o]
+\* dischargeSwap(incoming i, outgoing o) on a core whose shuffled part (blocks, locations, location table, move
+\* counts) is s -- s = Cur for a plain discharge swap, the state after the chain's swaps inside a repeated shuffle
+DischargeEffect(s, i, o) ==
+    /\ LET bl    == ExchangeIn(s.bl, i, o)
+           l     == s.lc[o]
            pool1 == IF track THEN Append(sfp, o) ELSE sfp        \* removeAssembly(outgoing) comes first ...
            slot1 == IF track THEN [slot EXCEPT ![o] = FirstFree({slot[x] : x \in Pool})] ELSE slot
            aT1   == IF track THEN asmTab ELSE asmTab \ AsmEntriesOf(asmTab, o)
@@ -214,8 +231,8 @@ DischargeSwap(i, o) ==
            nb    == NewBname(bl, i)
        IN /\ blocks' = bl
           /\ children' = Append(Without(children, o), i)
-          /\ loc' = [loc EXCEPT ![o] = 0, ![i] = l]
-          /\ byLoc' = [byLoc EXCEPT ![l] = i]
+          /\ loc' = [s.lc EXCEPT ![o] = 0, ![i] = l]
+          /\ byLoc' = [s.tb EXCEPT ![l] = i]
           /\ sfp' = Without(pool1, i)                              \* ... then the incoming leaves the pool
           /\ slot' = [slot1 EXCEPT ![i] = 0]
           /\ purged' = (IF track THEN purged ELSE purged \cup {o}) \ {i}
@@ -223,23 +240,83 @@ DischargeSwap(i, o) ==
           /\ asmTab' = (aT1 \ AsmEntriesOf(aT1, i)) \cup {<<NewNum(i), i>>}
           /\ blkTab' = (bT1 \ BlkEntriesOf(bT1, Rng(bl[i]))) \cup RegBlocks(nb, Rng(bl[i]))     \* R2
     /\ num' = [num EXCEPT ![i] = NewNum(i)] /\ nextNum' = NewNext(i)
-    /\ moves' = [moves EXCEPT ![i] = @ + 1]
+    /\ moves' = Counted(s.mv, i)
     /\ fresh' = fresh \ {i}
     /\ charged' = IF i \in fresh THEN charged \cup {i} ELSE charged
-    /\ UNCHANGED <<content, track, sflags>>
+    /\ UNCHANGED <<content, label, track, sflags>>
+
+DischargeSwap(i, o) ==
+    /\ Go /\ o \in InCore /\ i \in Outside \cup Pool /\ CompatIn(blocks, i, o)
+    /\ DischargeEffect(Cur, i, o)
     /\ Ok([n |-> "DischargeSwap", i |-> i, o |-> o])
 
 DischargeMismatch(i, o) ==
     /\ Go /\ o \in InCore /\ i \in Outside \cup Pool /\ ~CompatIn(blocks, i, o)
     /\ Refuse([n |-> "DischargeMismatch", i |-> i, o |-> o])
 
+\* Core.locateAllAssemblies(): every assembly in the core or the pool remembers where it is now
+Locate ==
+    /\ Go
+    /\ label' = [a \in Asm |-> IF a \in InCore THEN loc[a] ELSE IF a \in Pool THEN LabelSfp ELSE label[a]]
+    /\ UNCHANGED <<children, loc, byLoc, sfp, slot, fresh, purged, charged, num, nextNum, asmTab, blkTab, blocks, bname,
+                   content, moves, track, sflags>>
+    /\ Ok([n |-> "Locate"])
+
+\* A look-up by location between moves (no locContents table passed): getLocationContents at assembly and block level,
+\* getAssemblyWithStringLocation, getBlocksByIndices, asked for every location.  Pure: nothing changes; the answers
+\* (Queries) are compared by the replay and the trace validation (ObsQ).
+Ask ==
+    /\ Go /\ UNCHANGED vars /\ Ok([n |-> "Ask"])
+
+(* Repeated shuffle: FuelHandler.repeatShufflePattern(file) = readMoves ; processMoveList ; doRepeatShuffle.
+   The recorded moves are (at most) one load chain  chain[1] -> SFP, chain[2] -> chain[1], ..., pooled assembly inc ->
+   chain[k]  and any number of in-core loops  c[1] -> c[2] -> ... -> c[k] -> c[1]  (each loop's lines start with c[1]),
+   over disjoint occupied locations.  doRepeatShuffle looks the assemblies up once (makeLocationLookup), then swaps:
+     load chain [A1..Ak] (as located):  swap(A1, Ak), swap(Ak, Ak-1), ..., swap(A3, A2) ; dischargeSwap(inc, A1)
+     loop: processMoveList/trackChain turn c into the list [c1, ck, ..., c2] = [B1..Bk]:  swap(B1,B2), swap(Bk,B1),
+           swap(Bk-1,Bk), ...
+   A stationary mismatch raises in the middle (what was done stays, as for Cascade). *)
+LocAsm(l) == CHOOSE a \in InCore : loc[a] = l
+SwapSteps(s0, pairs) ==
+    FoldLeft(LAMBDA acc, p : IF ~acc.ok THEN acc
+                             ELSE IF CompatIn(acc.s.bl, p[1], p[2]) THEN [ok |-> TRUE, s |-> SwapIn(acc.s, p[1], p[2])]
+                             ELSE [ok |-> FALSE, s |-> acc.s],
+             [ok |-> TRUE, s |-> s0], pairs)
+LoadPairs(A) == LET k == Len(A) IN [m \in 1..(k - 1) |-> IF m = 1 THEN <<A[1], A[k]>> ELSE <<A[k - m + 2], A[k - m + 1]>>]
+LoopList(c) == LET k == Len(c) IN [j \in 1..k |-> IF j = 1 THEN LocAsm(c[1]) ELSE LocAsm(c[k - j + 2])]
+LoopPairs(B) == LET k == Len(B) IN
+    [m \in 1..(k - 1) |-> IF m = 1 THEN <<B[1], B[2]>> ELSE <<B[k - m + 2], IF k - m + 3 > k THEN B[1] ELSE B[k - m + 3]>>]
+Flatten(ss) == FoldLeft(LAMBDA acc, x : acc \o x, <<>>, ss)
+RepeatLocs(load, loops) == Rng(load.chain) \cup UNION {Rng(loops[j]) : j \in 1..Len(loops)}
+Repeat(load, loops) ==
+    /\ Go
+    /\ Len(load.chain) + Len(loops) >= 1
+    /\ \A l \in RepeatLocs(load, loops) : l \in Loc /\ \E a \in InCore : loc[a] = l
+    /\ Len(load.chain) + Len(Flatten(loops)) = Cardinality(RepeatLocs(load, loops))        \* disjoint, no repeats
+    /\ \A j \in 1..Len(loops) : Len(loops[j]) >= 2
+    /\ (load.chain # <<>> => load.inc \in Pool)
+    /\ LET hasLoad == load.chain # <<>>
+           A   == [j \in 1..Len(load.chain) |-> LocAsm(load.chain[j])]
+           r1  == SwapSteps(Cur, LoadPairs(A))
+           okD == r1.ok /\ (hasLoad => CompatIn(r1.s.bl, load.inc, A[1]))
+           r2  == IF okD THEN SwapSteps(r1.s, Flatten([j \in 1..Len(loops) |-> LoopPairs(LoopList(loops[j]))]))
+                  ELSE [ok |-> FALSE, s |-> r1.s]
+       IN /\ IF hasLoad /\ okD
+             THEN DischargeEffect(r2.s, load.inc, A[1])
+             ELSE /\ SetShuffle(r2.s)
+                  /\ UNCHANGED <<children, sfp, slot, fresh, purged, charged, num, nextNum, asmTab, blkTab, bname, content,
+                                 label, track, sflags>>
+          /\ err' = IF r2.ok THEN "" ELSE "refused"
+    /\ act' = [n |-> "Repeat", load |-> load, loops |-> loops]
+
 InjSeqs(S, lo, hi) == UNION {{s \in [1..k -> S] : \A p, q \in 1..k : p # q => s[p] # s[q]} : k \in lo..hi}
 \* cascade lists explored: all lists of distinct assemblies, and the longest ones with one level replaced by None
 CascadeLists(S) == InjSeqs(S, 2, MaxCascade) \cup
     {[s EXCEPT ![z] = 0] : s \in InjSeqs(S, MaxCascade, MaxCascade), z \in 1..MaxCascade}
 
-InitWith(t, f) ==
+InitWith(t, f, d) ==
     /\ track = t /\ sflags = f
+    /\ label = [a \in Asm |-> IF d /\ a \in Initial \cup Pooled0 THEN LabelDb ELSE 0]
     /\ children = [i \in 1..NA0 |-> i]
     /\ loc = [a \in Asm |-> IF a \in Initial THEN Place[a] ELSE 0]
     /\ byLoc = [l \in Loc |-> IF \E a \in Initial : Place[a] = l THEN CHOOSE a \in Initial : Place[a] = l ELSE 0]
@@ -255,7 +332,18 @@ InitWith(t, f) ==
     /\ content = [b \in RealBlk |-> b]
     /\ moves = [a \in Asm |-> 0]
     /\ err = "" /\ act = [n |-> "Init"]
-Init == \E t \in TrackSet, f \in SFlagSets : InitWith(t, f)
+Init == \E t \in TrackSet, f \in SFlagSets, d \in DbSet : InitWith(t, f, d)
+
+\* repeated shuffles explored: one loop (every start and direction), one load chain, or a 2-loop next to a 1-chain
+OccLocs == {loc[a] : a \in InCore}
+LoopsOver(S) == {c \in InjSeqs(S, 2, MaxLoop) : Len(c) = 2 => c[1] < c[2]}
+NoLoad == [chain |-> <<>>, inc |-> 0]
+LoadsOver(S) == {[chain |-> ch, inc |-> i] : ch \in InjSeqs(S, 1, MaxChain), i \in Pool}
+Combos == {<<ld, <<c>>>> : ld \in {x \in LoadsOver(OccLocs) : Len(x.chain) = 1},
+                             c \in {y \in LoopsOver(OccLocs) : Len(y) = 2}}
+RepeatArgs ==
+    {<<NoLoad, <<c>>>> : c \in LoopsOver(OccLocs)} \cup {<<ld, <<>>>> : ld \in LoadsOver(OccLocs)} \cup
+    {r \in Combos : Rng(r[1].chain) \cap Rng(r[2][1]) = {}}
 
 Next ==
     \/ \E x, y \in Asm : Swap(x, y)
@@ -266,6 +354,9 @@ Next ==
     \/ \E a \in Asm, d \in BOOLEAN : RemoveAsm(a, d)
     \/ \E i, o \in Asm : DischargeSwap(i, o)
     \/ \E i, o \in Asm : DischargeMismatch(i, o)
+    \/ Ask
+    \/ ((\E a \in Live : label[a] = LabelDb) /\ Locate)      \* explored where it matters: clearing database labels
+    \/ \E r \in RepeatArgs : Repeat(r[1], r[2])
 
 Spec == Init /\ [][Next]_allvars
 
@@ -275,6 +366,7 @@ TypeOK ==
     /\ Rng(children) \subseteq Asm /\ Rng(sfp) \subseteq Asm /\ fresh \subseteq Fresh0 /\ purged \subseteq Asm
     /\ \A a \in Asm : loc[a] \in 0..NL /\ Rng(blocks[a]) \subseteq RealBlk
     /\ \A l \in Loc : byLoc[l] \in 0..(NA0 + NP0 + NF)
+    /\ \A a \in Asm : label[a] \in {LabelDb, LabelSfp} \cup (0..NL)
 
 \* "the assemblies in the core plus those sent to the pool are exactly the ones that were there or were charged,
 \*  none duplicated or lost"  (purged = deliberately deleted: untracked discharge or discharge=False)
@@ -338,18 +430,30 @@ PlacedWhereAsked == [][
                                     /\ \A a \in Asm \ {act'.i, act'.o} : loc'[a] = loc[a])
     /\ (Success("Add") => loc'[act'.a] = act'.l /\ \A a \in Asm \ {act'.a} : loc'[a] = loc[a])
     /\ (Success("Remove") => loc'[act'.a] = 0 /\ \A a \in Asm \ {act'.a} : loc'[a] = loc[a])
+    \* a repeated shuffle puts every assembly where the recorded move says it goes
+    /\ (Success("Repeat") => LET ld == act'.load  ch == ld.chain  k == Len(ch)  lps == act'.loops IN
+            /\ \A j \in 1..Len(lps) : \A p \in 1..Len(lps[j]) :
+                   loc'[LocAsm(lps[j][p])] = lps[j][IF p = Len(lps[j]) THEN 1 ELSE p + 1]
+            /\ (k >= 1 => /\ loc'[LocAsm(ch[1])] = 0 /\ loc'[ld.inc] = ch[k]
+                           /\ \A p \in 2..k : loc'[LocAsm(ch[p])] = ch[p - 1])
+            /\ \A a \in InCore : loc[a] \notin RepeatLocs(ld, lps) => loc'[a] = loc[a])
     ]_allvars
 \* stationary blocks keep their core position through every shuffle
-StationaryStay == [][act'.n \in {"Swap", "Cascade", "DischargeSwap"} =>
+StationaryStay == [][act'.n \in {"Swap", "Cascade", "DischargeSwap", "Repeat"} =>
     \A a \in InCore : \A k \in StatPosIn(blocks, a) :
         \E a2 \in Rng(children') : loc'[a2] = loc[a] /\ k <= Len(blocks'[a2]) /\ blocks'[a2][k] = blocks[a][k]]_allvars
 \* R3: refusals change nothing (an aborted cascade is the documented exception, see header)
-RefusalsChangeNothing == [][(err' = "refused" /\ act'.n # "Cascade") => UNCHANGED vars]_allvars
+RefusalsChangeNothing == [][(err' = "refused" /\ act'.n \notin {"Cascade", "Repeat"}) => UNCHANGED vars]_allvars
+QueriesChangeNothing == [][act'.n = "Ask" => UNCHANGED vars]_allvars
 \* discharge with tracking goes to the pool, everything else that leaves the core is purged
 DischargeDestination == [][\A a \in Asm : (a \in InCore /\ a \notin Rng(children')) =>
-    IF track /\ (act'.n = "DischargeSwap" \/ (act'.n = "Remove" /\ act'.d)) THEN a \in Rng(sfp') ELSE a \in purged']_allvars
+    IF track /\ (act'.n \in {"DischargeSwap", "Repeat"} \/ (act'.n = "Remove" /\ act'.d)) THEN a \in Rng(sfp') ELSE a \in purged']_allvars
 \* an assembly that changed place was counted as moved
-MovesCounted == [][\A a \in Asm : (a \in Rng(children') /\ loc'[a] # loc[a]) => moves'[a] > moves[a]]_allvars
+\* ... unless it still carries the database label (Assembly.moveTo); and only a move is ever counted
+MovesCounted == [][\A a \in Asm : /\ (a \in Rng(children') /\ loc'[a] # loc[a] /\ label[a] # LabelDb) => moves'[a] > moves[a]
+                                  /\ (label[a] = LabelDb /\ label'[a] = LabelDb) => moves'[a] = moves[a]]_allvars
+\* labels are written by locateAllAssemblies only
+LabelsKept == [][act'.n # "Locate" => label' = label]_allvars
 
 (* ---------- observation: what the adapter projects from the real objects ---------- *)
 SortedInts(S) == SetToSortSeq(S, LAMBDA p, q : p < q)
@@ -378,9 +482,22 @@ Obs == [
     bname    |-> OverBlk(LAMBDA b : bname[b]),
     content  |-> OverBlk(LAMBDA b : content[b]),
     moves    |-> moves,
+    label    |-> label,
     err      |-> err ]
+\* what the look-ups by location answer, for every location l and axial index k (0 = nothing there)
+Queries == [
+    asm |-> [l \in Loc |-> IF \E a \in InCore : loc[a] = l THEN LocAsm(l) ELSE 0],       \* getLocationContents(assemblyLevel)
+    str |-> byLoc,                                                                     \* getAssemblyWithStringLocation
+    blk |-> [l \in Loc |-> [k \in 1..MB |-> IF (\E a \in InCore : loc[a] = l) /\ k <= Len(blocks[LocAsm(l)])
+                                            THEN blocks[LocAsm(l)][k] ELSE 0]],        \* getLocationContents (blocks)
+    idx |-> [l \in Loc |-> [k \in 1..MB |-> IF byLoc[l] # 0 /\ k <= Len(blocks[byLoc[l]])
+                                            THEN blocks[byLoc[l]][k] ELSE 0]] ]        \* getBlocksByIndices
+NoAnswer == [asm |-> <<>>, str |-> <<>>, blk |-> <<>>, idx |-> <<>>]
+ObsQ(a) == [q |-> IF a.n = "Ask" THEN Queries ELSE NoAnswer] @@ Obs
+\* the two tables the look-ups are answered from agree
+LookupsAgree == Queries.asm = Queries.str /\ Queries.blk = Queries.idx
 Vars == [children |-> children, loc |-> loc, byLoc |-> byLoc, sfp |-> sfp, slot |-> slot, fresh |-> SortedInts(fresh),
-         purged |-> SortedInts(purged), num |-> num, nextNum |-> nextNum, blocks |-> blocks, moves |-> moves,
+         purged |-> SortedInts(purged), num |-> num, nextNum |-> nextNum, blocks |-> blocks, moves |-> moves, label |-> label,
          bname |-> OverBlk(LAMBDA b : bname[b]), track |-> track,
          sflags |-> [x \in {"F", "G", "P", "S"} |-> x \in sflags]]
 Config == [NL |-> NL, NA0 |-> NA0, NP0 |-> NP0, NF |-> NF, MB |-> MB, layout |-> Layout, place |-> Place, blk |-> BlkSeq]
